@@ -537,7 +537,7 @@ def check_ages(ctx, case):
     ctx.cls("ages:family:%s" % ("exact" if not case["shifts"] else "one_shift" if len(case["shifts"]) == 1 else "two_shifts"))
     ctx.cls("ages:heights:%s" % case["heights"])
     k = case.get("scale", 1.0)
-    ctx.cls("ages:scale:%s" % ("1" if k == 1.0 else ("2^%d" % round(math.log(k, 2))) if all_exact([k]) and k not in (1e3, 1e6) else "%g" % k))
+    ctx.cls("ages:scale:%s" % ("1" if k == 1.0 else "2^%d" % (math.frexp(k)[1] - 1) if math.frexp(k)[0] == 0.5 else "%g" % k))
     shape_classes(ctx, pre, "ages")
     ns_class(ctx, case, "ages")
     if checked and not must_reject and not must_accept:
